@@ -129,7 +129,8 @@ def run_check(spec, tier, seed):
             reqs = st.gen(prng.fork(st.name), ptier)
             reqs = list(collections.OrderedDict.fromkeys(reqs))
             impl = vlib.run_lines(harness, reqs, env=st.harness_env())
-            model = vlib.run_lines(driver, reqs) if driver else None
+            # the model may be slow on long values: only the implementation is watched for hangs
+            model = vlib.run_lines(driver, reqs, line_timeout=1800) if driver else None
             diag = None
             if st.needs_diag:
                 try:
@@ -178,14 +179,14 @@ def run_check(spec, tier, seed):
 
             def still_bad(c, st=st):
                 ia = vlib.run_lines(harness, [c], env=st.harness_env())[0]
-                ma = vlib.run_lines(driver, [c])[0]
+                ma = vlib.run_lines(driver, [c], line_timeout=1800)[0]
                 return ia != "bad-op" and ma != "bad-op" and not st.compare(c, ia, ma)
             try:
                 small = vlib.shrink(r, still_bad, budget=120)
             except Exception:
                 small = r
             ia = vlib.run_lines(harness, [small], env=st.harness_env())[0]
-            ma = vlib.run_lines(driver, [small])[0]
+            ma = vlib.run_lines(driver, [small], line_timeout=1800)[0]
             shrunk.append((sn, small, ia, ma))
     # ---- 5. verdict
     violations = 0
@@ -265,7 +266,7 @@ def run_replay(spec, path):
         print("model driver does not build:", b.what)
     by_prefix = {s.name: s for s in spec.streams}
     impl = vlib.run_lines(harness, reqs)
-    model = vlib.run_lines(driver, reqs) if driver else ["-"] * len(reqs)
+    model = vlib.run_lines(driver, reqs, line_timeout=1800) if driver else ["-"] * len(reqs)
     bad = 0
     for r, a, m in zip(reqs, impl, model):
         st = None
